@@ -102,7 +102,17 @@ impl Quantile {
             if index < len - 1 {
                 // `q[index]` and `q[index + 1]` are equally valid estimates,
                 // by convention we take their average.
-                return 0.5 * heights[index] + 0.5 * heights[index + 1];
+                // The halves are rounded separately, which for subnormal
+                // heights can leave the interval between them.
+                let (lower, upper) = (heights[index], heights[index + 1]);
+                let average = 0.5 * lower + 0.5 * upper;
+                return if average < lower {
+                    lower
+                } else if average > upper {
+                    upper
+                } else {
+                    average
+                };
             }
         }
         index = index.max(0.);
